@@ -39,7 +39,13 @@ LongLists(AA) == { <<E("bps", 100, "OK", "F1"), E("fix", 1, "OK", "F1"), E("bps"
                    <<E("bps", 1, "OK", "F1"), E("bps", 1, "OK", "F1"), E("bps", 1, "OK", "F1"), E("bps", 1, "OK", "F1"), E("bps", 1, "OK", "F1"), E("bps", 1, "OK", "F1")>>,
                    <<E("fix", 1, "OK", "F1"), E("fix", 1, "OK", "F2"), E("fix", 1, "OK", "F1"), E("fix", 1, "OK", "F2"), E("fix", 1, "OK", "F1"), E("fix", 1, "OK", "F2")>>,
                    <<E("bps", 5000, "OK", "F1"), E("fix", AA, "OK", "F2"), E("bps", 1, "OK", "F1")>>,
-                   <<E("bps", 100, "OK", "F1"), E("null", 0, "OK", "F1")>> }
+                   <<E("bps", 100, "OK", "F1"), E("null", 0, "OK", "F1")>>,
+                   \* basis points that ADD UP to more than 100 %: every entry is floored on its own, so on a small
+                   \* amount the fees still sum to less than the amount and the transfer must go through
+                   <<E("bps", 5000, "OK", "F1"), E("bps", 5001, "OK", "F2")>>,
+                   <<E("bps", 6000, "OK", "F1"), E("bps", 6000, "OK", "F2"), E("bps", 6000, "OK", "F1")>>,
+                   <<E("bps", 2500, "OK", "F1"), E("bps", 2500, "OK", "F2"), E("bps", 2500, "OK", "F1"), E("bps", 2501, "OK", "F2")>>,
+                   <<E("bps", 9999, "OK", "F1"), E("bps", 9999, "OK", "F2")>> }
 
 \* the transfer carrying the fee action: internal route to U so that credits and forwarded amount are bank-visible
 FeeXfer(AA, fs, fw) == Xfer(0, "uusdc", AA, fw, <<FeeAct(fs)>>)
